@@ -83,4 +83,18 @@ def main(tier):
     proof = common.proof_obligations("C10")
     n_defs, cap_vals = (250, 6) if tier == "quick" else (3000, 20)
     tie = b1.run_b1("C10", P(), n_defs, cap_vals, common.seed())
+    # "... else the unique field whose declared type is T": no designation, or more than one, is refused and never resolved
+    from .. import attr, offences
+    cases = [(i, src) for i, (label, classes, src) in enumerate(offences.generate()) if label.startswith("into-field")]
+    try:
+        real = attr.expand_real(cases)
+        for i, src in cases:
+            tie["evaluations"] += 1
+            if real[i]["outcome"] == "ok":
+                tie["failing"].append({"what": "an Into request without a unique designated field is resolved instead of refused", "rust_source": src,
+                                       "observed": "accepted: " + real[i]["tokens"][:300], "expected_spec": "refused with a diagnostic"})
+        tie["extra"]["undesignated_into_inputs_refused"] = len(cases)
+        tie["failing"] = tie["failing"][:4]
+    except (common.BuildError, RuntimeError) as e:
+        tie["broken"].append("B4: " + str(e)[:300])
     return common.finish("C10", tier, t0, proof, tie)
